@@ -28,7 +28,7 @@ class C01:
     excl = {}
 
     def budget(self, tier):
-        return 1400 if tier == 'quick' else 40000
+        return 1400 if tier == 'quick' else 16000
 
     def gen_case(self, ch, depth):
         g = igen.Gen(ch, excl=self.excl)
